@@ -427,6 +427,11 @@ func genAmplicon(t *rapid.T, sh Sheet, ms []markerM, o ampOpt) (string, []string
 	}
 	flank := func(label string, sd sideM) string {
 		f := gen.Seq(t, label, gen.Len(t, label+"_len", 0, 14, 1, 2), o.alpha)
+		if chance(t, label+"_long", 2) {
+			// a long read (Nanopore / PacBio): the priming site lies beyond position 10000
+			unit := gen.Seq(t, label+"_unit", 37, o.alpha)
+			f = strings.Repeat(unit, 330)[:rapid.IntRange(10000, 12000).Draw(t, label+"_longlen")] + f
+		}
 		if sd.Delim != 0 {
 			f += strings.Repeat(string(sd.Delim), rapid.IntRange(0, 3).Draw(t, label+"_delims"))
 		}
